@@ -225,7 +225,7 @@ func init() {
 		},
 		Gen: func(r *Rng, tier string) *genProfile {
 			return &genProfile{MaxSteps: steps(tier, 40, 100), Default: 0, FollowUp: 60, Template: 40,
-				Templates: []string{"remember_cycle", "remember_cycle", "oauth_remember", "oauth_stale_params", "forged_cookie", "remember_then_reset", "recover_flow", "login_ok"},
+				Templates: []string{"remember_cycle", "remember_cycle", "oauth_remember", "oauth_stale_params", "forged_cookie", "cookie_at_validate", "remember_then_reset", "recover_flow", "login_ok"},
 				Weights: withW(loginWeights, map[string]int{"probe": 14, "drop_session": 10, "copy_cookie": 5, "stale_cookie": 7, "set_cookie": 3, "logout": 6,
 					"op_update_password": 3, "register": 1, "confirm": 1}),
 				BadSecret: 30, ThreshGaps: 5, SmallGaps: 20, FaultRate: []int{0, 0, 60}[r.Intn(3)]}
